@@ -2,7 +2,7 @@
 import json, os
 
 from . import extract
-from .rules import lock7, seq, mutex, ptr, lockword
+from .rules import lock7, seq, mutex, ptr, lockword, qsbr
 from . import olcrules
 
 VERIF = os.path.dirname(os.path.dirname(os.path.abspath(__file__)))
@@ -148,6 +148,35 @@ PROPERTIES['C17'] = {
     'decides': 'operator homomorphism; exact liveness tracking; span mapping; the three rejection sites',
     'does_not_decide': 'std::unordered_multiset itself; that the assertion macro aborts',
     'trusted_base': ['clang 14 front end', 'usa extractor and rule engine', 'std::unordered_multiset', 'assert() aborts on failure'],
+}
+
+
+def stats_axis(tier):
+    return [B, D, extract.flip(B, 'nostats'), extract.flip(D, 'nostats')] if tier == 'quick' else extract.all_configs()
+
+
+PROPERTIES['C05'] = {
+    'level': 'other',
+    'configs': stats_axis,
+    'rules': [R(qsbr.q_free_paths), R(qsbr.q_rotation), R(qsbr.q_barriers), R(lambda cfg: qsbr.q_orphans(cfg, parts=('9',)))],
+    'explanation': 'Structural safety conditions of "QSBR never frees what a registered thread may still reference", each decided on every CFG path of qsbr.hpp/qsbr.cpp (stats on/off, debug/release): '
+                   'Q-1 requests reach qsbr::deallocate only through ~deferred_requests, or at once only under single-thread mode; Q-2 only the previous-interval list (and, under single-thread mode, the current one; orphans likewise) is handed to the free sink; '
+                   'Q-3 in the rotation the previous list is moved out before it receives the current list; Q-4 every rotation is control-dependent on an observed epoch change; '
+                   'Q-5 the release barrier precedes every announcement (path-sensitive on the leave-previous-epoch flag), the acquire fence opens orphan handling, orphans are handled exactly once before every epoch-advancing write (at most once per unregister_thread call even across CAS retries), state-word RMWs are acq_rel and loads acquire; '
+                   'Q-9 a thread leaves the previous epoch at most once per epoch; Q-10 the single-thread-mode decision is taken on the observed old state, never on the state produced by the thread\'s own update.',
+    'decides': 'Q-1,2,3,4,5,9,10: the local generators of the two-epoch delay',
+    'does_not_decide': 'the global invariant "the epoch advances only when every registered thread has quiesced" under all interleavings of register/unregister with an epoch change; bit-level arithmetic of inc_epoch_* helpers',
+}
+PROPERTIES['C06'] = {
+    'level': 'other',
+    'configs': stats_axis,
+    'rules': [R(lambda cfg: qsbr.q_rotation(cfg, parts=('3',))), R(qsbr.q_cas), R(lambda cfg: qsbr.q_orphans(cfg, parts=('7', '8')))],
+    'explanation': 'Exactly-once as linearity of the request containers: Q-3 no request list is overwritten while it may hold requests, the new requests are consumed into the current list; '
+                   'Q-6 every CAS on the packed state word publishes helper(expected) recomputed after each failed attempt (no lost thread-count update), register increments and unregister decrements the count, paused follows (un)registration, '
+                   'a push onto an orphan list links the node to the very head the CAS expects on every retry; Q-7 every orphan list taken by the epoch changer reaches exactly one sink (freed / published / appended on CAS failure), '
+                   'add_to_orphan_list returns only on empty input or CAS success, every exit of unregister_thread passes through orphan_pending_requests, which hands each private list to its own orphan list once; Q-8 requests are not copyable, deferred_requests neither copyable nor movable.',
+    'decides': 'no request lost or duplicated on any path of rotation, orphaning and orphan hand-over; thread-count bookkeeping',
+    'does_not_decide': 'the bound "freed no later than the third quiescent round" and getter equalities at quiescent points (schedule-dependent)',
 }
 
 NOT_APPLICABLE = {}
